@@ -15,6 +15,8 @@ VTYPES = {
     "t3": ("cv::Triv<3,1>", 3, 1, True),
     "t12": ("cv::Triv<12,4>", 12, 4, True),
     "t24": ("cv::Triv<24,8>", 24, 8, True),
+    "t16": ("cv::Triv<16,8>", 16, 8, True),
+    "t8a4": ("cv::Triv<8,4>", 8, 4, True),
     "obj": ("cv::Obj", 8, 8, False),
     "obj4": ("cv::Obj4", 4, 4, False),
 }
@@ -160,6 +162,10 @@ CORNER_LISTS = [
     PL("VaryingTwoLow", COUNT8, V("t3"), COUNT8, V("t3")),
     PL("VaryingHigh32", P("u8"), COUNT8, V("f32", 32)),
     PL("MixedAll", F("u16", 2), COUNT8, V("t12", 4), P("u8"), F("u64", 8)),
+    # element size with more trailing zero bits than the span's alignment, followed by a higher-aligned field
+    PL("VaryingBigElemThenHigher", COUNT8, V("t16", 8), P("f32", 16)),
+    PL("FixedBigElemThenHigher", P("u32", 4), F("t8a4", 4), P("f32", 8)),
+    PL("VaryingMidElemThenHigher", P("u8"), COUNT8, V("t8a4", 4), F("u16", 8)),
 ]
 
 # ---- non-trivial value types -------------------------------------------------------------------
@@ -182,7 +188,7 @@ def thorough_lists(seed, limit=400):
     """systematic short lists over the shape alphabet + a seeded sample of longer ones"""
     rnd = random.Random(seed)
     shapes = []
-    for vt in ("u8", "u16", "u32", "u64", "t3", "t12", "t24", "obj", "obj4"):
+    for vt in ("u8", "u16", "u32", "u64", "t3", "t12", "t24", "t16", "t8a4", "obj", "obj4"):
         sz, al = VTYPES[vt][1], VTYPES[vt][2]
         for a in (0, 1, 2, 4, 8, 16, 32):
             if a and (a < al and not VTYPES[vt][3]):
